@@ -233,12 +233,17 @@ PROPS['C20'] = {
 
 PROPS['C17'] = {
     'level': 'other',
-    'kani': [{'package': 'flipdot-testing', 'harnesses': [H('c17_bridge_forwards_exactly', covers=4)]}],
-    'functions': ['flipdot_testing::Odk::process_message (Kani; Frame::read / Frame::write replaced by contract stubs, bus = nondeterministic SignBus)'],
+    'kani': [{'package': 'flipdot-testing', 'harnesses': [H('c17_bridge_forwards_exactly', covers=4)]},
+             {'package': 'flipdot-testing', 'isolated': ['xpath_serial_bridge.rs'],
+              'harnesses': [H('c17_exchange_is_transparent_reply_due', covers=2), H('c17_exchange_is_transparent_one_way', covers=1)]}],
+    'functions': ['flipdot_testing::Odk::process_message (Kani; Frame::read / Frame::write replaced by contract stubs, bus = nondeterministic SignBus)',
+                  'flipdot_serial::SerialSignBus::process_message composed with flipdot_testing::Odk::process_message over a pipe (Kani: one exchange, both real functions, Frame::write / Frame::read replaced by their contracts = a frame written at one end arrives as an equal frame at the other)'],
     'assumptions': [A_TOOLS, A_DEBUG,
-                    'NOT MECHANISED: the end-to-end equivalence "over the wire == directly on the bus" is a two-process, whole-history statement; it is the paper composition of C01 (wire round trip), C04/C05 (message mapping both ways), C16 (serial bus: one frame out, one in iff due) and the bridge contract proved here. Only the bridge contract is a discharged obligation of this check',
-                    'Frame::read / Frame::write are contract stubs (their behaviour on real streams is the subject of C15)'],
-    'explanation': 'Per-call contract of the ODK bridge for every frame read (any address/type/0..=4 data bytes), every bus answer (none / any reply message / error) and a failure at the read or the write: the bus receives exactly the decoding of the frame read; a frame is written back exactly when the bus replied and it is that reply\'s frame; an undecodable line is a Communication error with zero bus calls; a bus error is a Bus error with no write.',
+                    'COMPOSITION LEMMA (mechanised, c17_exchange_is_transparent_*): for every message (all kinds, any address / state / operation, data of every length 0..=255, canonical Unknown frames) and every bus that answers Ok(None) or Ok(Some(data-free message)) and answers only messages that require an answer, one exchange through the real SerialSignBus::process_message, the pipe and the real Odk::process_message gives the bus exactly the message sent (data by identity), returns exactly the reply of the bus, turns "no answer to a message that requires one" into an error, and leaves both directions of the pipe empty - so it applies to every exchange of every conversation (induction over the conversation by the pipe-empty invariant; the induction itself is not a mechanised obligation)',
+                    'precondition of the lemma, discharged elsewhere for the virtual bus: it returns Ok for every message (C12) and replies only to Hello / QueryState / RequestOperation (C13 spec_step); for an arbitrary SignBus that returns Err, or that answers a one-way message, the serial path is NOT transparent (the error / the extra frame is not transported) - the property only speaks about virtual signs',
+                    'NOT MECHANISED: lifting the per-exchange lemma to "controller operation over the wire succeeds exactly when it succeeds directly and leaves the signs in the same state" additionally uses C10 (the controller treats a bus error and a missing answer alike: both end the operation with an error) and the fact that a bus that saw the same messages is in the same state; the native serial-path domain exercises that end to end (bounded)',
+                    'Frame::read / Frame::write are contract stubs (their contracts are proved for the extracted functions in C15, relative to the assumed std::io contracts); thread::sleep is a no-op stub (pacing is C18)'],
+    'explanation': 'Per-call contract of the ODK bridge for every frame read (any address/type/0..=4 data bytes), every bus answer (none / any reply message / error) and a failure at the read or the write: the bus receives exactly the decoding of the frame read; a frame is written back exactly when the bus replied and it is that reply\'s frame; an undecodable line is a communication error and the bus is not touched; a bus error is a bus error and nothing is written. Plus the one-exchange composition of the real serial bus and the real bridge over a pipe (transparent, pipe empty afterwards).',
 }
 
 SERIAL_EVENT = [H('c16_c18_event_order_reply_due', covers=4), H('c16_c18_event_order_one_way', covers=2),
